@@ -846,8 +846,15 @@ def _(c):
 def _(c):
     import operator
     b = partner(c, broadcast_ok=False); guard_sum(c.a, b)
-    if c.r.random() < 0.3:
+    k = c.r.random()
+    if k < 0.25:
         return tn.reduce([c.a], operator.add, eps=c.r.choice([0, 1e-6]))       # a sequence of one
+    if k < 0.55:
+        # a combining function that hands back one of its arguments (the larger one): the rounding inside reduce must
+        # still work on a copy
+        pick = lambda x, y: x if float(tn.norm(x)) >= float(tn.norm(y)) else y
+        kw = {"rmax": 1} if c.r.random() < 0.5 else {"eps": c.r.choice([0, 1e-6])}
+        return tn.reduce([c.a, b, c.a] if c.r.random() < 0.5 else [c.a, b], pick, **kw)
     return tn.reduce([c.a, b, c.a], operator.add, eps=c.r.choice([0, 1e-6]))
 
 
